@@ -42,6 +42,8 @@ def build(ctx, specs, prefix="f", allsym_limit=16, full_addr_index=0):
             ft, dt = 0, 0xFF
         elif s.kind == "data":
             ft, dt = 1, 0xFF
+        elif s.kind == "mlff":
+            ft, dt = 2, 0xFF            # machine language with the ASCII flag set (arrives through conversions)
         else:
             ft = ctx.int(p + "_type", 0, 3)
             dsel = ctx.int(p + "_dt", 0, 1)
@@ -57,10 +59,14 @@ def build(ctx, specs, prefix="f", allsym_limit=16, full_addr_index=0):
                 data.append(ctx.int("%s_b%d" % (p, j), 0, 255))
             else:
                 data.append((j * 7 + 3 + i * 29) % 251)
+        gap = 0
+        if s.kind == "sym":
+            gap = ctx.int(p + "_gap", 0, 1) * 255      # a file read from a tape recorded with gaps carries $FF here
         cf = CoCoFile(name=s.name, extension=s.ext, type=NumericValue(ft), data_type=NumericValue(dt),
-                      load_addr=NumericValue(load), exec_addr=NumericValue(exe), data=data, gaps=NumericValue(0))
+                      load_addr=NumericValue(load), exec_addr=NumericValue(exe), data=data, gaps=NumericValue(gap))
         files.append(cf)
-        descs.append({"name": s.name, "ext": s.ext, "ftype": ft, "dtype": dt, "load": load, "exec": exe, "data": data})
+        descs.append({"name": s.name, "ext": s.ext, "ftype": ft, "dtype": dt, "load": load, "exec": exe,
+                      "data": list(data), "gap": gap})
     return files, descs
 
 
